@@ -327,11 +327,46 @@ def cmp_sites(ast):
     return sites
 
 
+def mutable_records(asts):
+    """names of the classes of namespace ipr that have a `mutable` data member, directly or through a member or base of such a class
+    (by name: a static object of such a type can change although it is const / constexpr)"""
+    fields = {}      # record name -> [(field type text, is mutable)]
+    bases = {}
+    for tu, ast in asts.items():
+        for n, p in ast.nodes:
+            if n.get("kind") != "FieldDecl":
+                continue
+            names = [x for x in p if isinstance(x, str)]
+            if not names or names[0] != "ipr":
+                continue
+            rec = names[-1]
+            fields.setdefault(rec, []).append((n.get("type", {}).get("qualType", ""), bool(n.get("mutable"))))
+        for n, p in ast.nodes:
+            if n.get("kind") in ("CXXRecordDecl", "ClassTemplateSpecializationDecl") and n.get("bases") and n.get("name"):
+                names = [x for x in p if isinstance(x, str)]
+                if names and names[0] == "ipr":
+                    bases.setdefault(n["name"], set()).update(b["type"]["qualType"] for b in n["bases"])
+    bad = {r for r, fs in fields.items() if any(m for _, m in fs)}
+    changed = True
+    word = lambda name, text: re.search(r"(?<![A-Za-z0-9_])%s(?![A-Za-z0-9_])" % re.escape(name), text) is not None
+    while changed:
+        changed = False
+        for r in set(fields) | set(bases):
+            if r in bad:
+                continue
+            texts = [t for t, _ in fields.get(r, [])] + list(bases.get(r, ()))
+            if any(word(b, t) for b in bad for t in texts):
+                bad.add(r); changed = True
+    return sorted(bad)
+
+
 def statics(asts):
     """every variable with static storage duration defined in the TUs (namespace scope,
     static data members, function-local statics): constness facts"""
     out = []
     seen = set()
+    mut = mutable_records(asts)
+    word = lambda name, text: re.search(r"(?<![A-Za-z0-9_])%s(?![A-Za-z0-9_])" % re.escape(name), text) is not None
     for tu, ast in asts.items():
         for n, p in ast.nodes:
             if n.get("kind") != "VarDecl":
@@ -355,7 +390,8 @@ def statics(asts):
             const = t.startswith("const ") or " const" in t or bool(n.get("constexpr"))
             out.append({"tu": tu, "name": name, "type": t, "constexpr": bool(n.get("constexpr")),
                         "const": const, "static_local": is_static_local, "scope": [x for x in p if isinstance(x, str)][:5],
-                        "thread_local": n.get("tls") is not None})
+                        "thread_local": n.get("tls") is not None,
+                        "mutable_members": any(word(r, t) for r in mut)})
     return out
 
 
@@ -458,6 +494,8 @@ def cexpr(ast, n, params):
         return ["CUn", n.get("opcode"), cexpr(ast, ch[0], params)]
     if k == "BinaryOperator":
         return ["CBin", n.get("opcode"), cexpr(ast, ch[0], params), cexpr(ast, ch[1], params)]
+    if k == "ConditionalOperator" and len(ch) == 3:
+        return ["CCond", cexpr(ast, ch[0], params), cexpr(ast, ch[1], params), cexpr(ast, ch[2], params)]
     if k == "MemberExpr":
         # a data member access (calls are handled at the call node)
         return ["CField", n.get("name"), cexpr(ast, ch[0], params) if ch else ["CThis"]]
@@ -561,6 +599,68 @@ def derived_ops(ast):
             continue
         rows.setdefault(key, {"nparams": len(params), "body": body})
     return rows
+
+
+def _returned(ast, st, params):
+    """the expression a statement returns: `return e;` or `{ return e; }`"""
+    if st.get("kind") == "CompoundStmt" and len(children(st)) == 1:
+        st = children(st)[0]
+    if st.get("kind") == "ReturnStmt" and children(st):
+        return cexpr(ast, children(st)[0], params)
+    return None
+
+
+def impl_inline_ops(ast, wanted=(("Elementary_substitution", "operator[]"),)):
+    """bodies of a few implementation member functions, as expression trees (rows are keyed impl::<class>::<name>):
+    `return e;`, or `if (c) return a; return b;` / `if (c) return a; else return b;` read as c ? a : b.
+    Anything else becomes CUnknown and fails the obligation.  Also the constructor's member initialisers
+    (member name -> index of the constructor parameter it is initialised from)."""
+    rows, inits = {}, {}
+    for n, p in ast.nodes:
+        if n.get("kind") not in ("CXXMethodDecl", "CXXConstructorDecl") or n.get("isImplicit"):
+            continue
+        names = [x for x in p if isinstance(x, str)]
+        if "impl" not in names:
+            continue
+        for cls, fn in wanted:
+            if cls not in names:
+                continue
+            params = [c.get("name") for c in children(n, "ParmVarDecl")]
+            if n.get("kind") == "CXXConstructorDecl" and n.get("name") == cls and has_body(n):
+                row = []
+                for c in children(n, "CXXCtorInitializer"):
+                    field = (c.get("anyInit") or {}).get("name")
+                    src = None
+                    for m, _ in walk(c):
+                        if m.get("kind") == "DeclRefExpr" and m.get("referencedDecl", {}).get("kind") == "ParmVarDecl":
+                            nm = m["referencedDecl"].get("name")
+                            src = params.index(nm) if nm in params else None
+                            break
+                    if field is not None and src is not None:
+                        row.append([field, src])
+                inits["impl::" + cls] = row
+            elif n.get("name") == fn and has_body(n):
+                stmts = children(body_of(n))
+                body = None
+                if len(stmts) == 1:
+                    body = _returned(ast, stmts[0], params)
+                    if body is None and stmts[0].get("kind") == "IfStmt" and len(children(stmts[0])) == 3:
+                        c, a, b = children(stmts[0])
+                        ra, rb = _returned(ast, a, params), _returned(ast, b, params)
+                        if ra is not None and rb is not None:
+                            body = ["CCond", cexpr(ast, c, params), ra, rb]
+                elif len(stmts) == 2 and stmts[0].get("kind") == "IfStmt" and len(children(stmts[0])) == 2:
+                    c, a = children(stmts[0])
+                    ra, rb = _returned(ast, a, params), _returned(ast, stmts[1], params)
+                    if ra is not None and rb is not None:
+                        body = ["CCond", cexpr(ast, c, params), ra, rb]
+                if body is None:
+                    body = ["CUnknown", "statements:%d" % len(stmts)]
+                rows["impl::%s::%s" % (cls, fn)] = {"nparams": len(params), "body": body}
+    for cls, fn in wanted:
+        rows.setdefault("impl::%s::%s" % (cls, fn), {"nparams": 0, "body": ["CUnknown", "not-found-inline"]})
+        inits.setdefault("impl::" + cls, [])
+    return rows, inits
 
 
 # ---------------------------------------------------------------------------
@@ -1017,6 +1117,8 @@ def extract(workdir):
     facts["statics"] = statics(asts)
     facts["stores"] = store_facts(impl)
     facts["derived"] = derived_ops(ast_uses)
+    inline_rows, facts["ctor_inits"] = impl_inline_ops(impl)
+    facts["derived"].update(inline_rows)
     facts["factories"] = factories(impl)
     facts["accessor_names"] = accessor_names(impl)
     facts["iface_shapes"] = iface_shapes(impl)
